@@ -581,6 +581,60 @@ def check_scanners(rep, crate, cfg, rule='R13.7', prefix=''):
 
 
 LEXICAL = {'ws', 'whitespace_only', 'comment_def'}
+# the white-space / comment helpers as consumers of a reference language (engine L in `skip` mode): what each may consume, longest match
+LEXICAL_RULES = {
+    'idl::parse::ws': ('([ \t\r\n]|#[^\r\n]*)*', '`_` of the grammar: white space, line breaks and `#` comments up to the end of their line'),
+    'idl::parse::whitespace_only': ('[ \t\r\n]*', 'white space and line breaks, no comments'),
+    'idl::parse::comment_def': ('#[^\n]*', 'one comment: `#` and the rest of its line, the line break left in place'),
+}
+SKIP_BAD_KINDS = {
+    'unsound': 'consumes bytes outside its language',
+    'incomplete': 'fails on an input that begins with a word of its language',
+    'cut': 'stops before the end of the longest match',
+    'consume': 'returns a text that does not end where the consumed input ends',
+    'panic': 'can panic',
+}
+_SKIP_CACHE = {}
+
+
+def check_lexical_helpers(rep, crate, cfg, rule='R13.13', prefix=''):
+    """abstract interpretation of ws / whitespace_only / comment_def as consumers of their reference languages"""
+    import scanner as SC
+    bodies = {b.path: b for b in crate.bodies if not b.in_test}
+    n = 0
+    for path, (regex, what) in LEXICAL_RULES.items():
+        body = bodies.get(path)
+        shown = regex.replace('\t', '\\t').replace('\r', '\\r').replace('\n', '\\n')
+        if body is None:
+            rep.bad(rule, '%s%s|anchor|%s' % (prefix, path, cfg), '-', 'lexical helper %s (fn(&mut &[u8])) not found' % path)
+            continue
+        ck = (id(crate), path)
+        if ck not in _SKIP_CACHE:
+            try:
+                sc, outs = SC.analyse(crate, body, regex, mode='skip')
+                _SKIP_CACHE[ck] = (sc, outs, None)
+            except SC.Unsupported as e:
+                _SKIP_CACHE[ck] = (None, [], str(e))
+        sc, outs, err = _SKIP_CACHE[ck]
+        if err is not None:
+            rep.bad(rule, '%s%s|not-modelled|%s' % (prefix, path, cfg), body.where(),
+                    'the helper uses a construct the abstract interpretation does not model (%s): what it consumes cannot be compared with /%s/' % (err, shown))
+            continue
+        n += 1
+        kinds = {}
+        for o in outs:
+            kinds.setdefault(o.kind, []).append(o)
+        detail = {'regex': shown, 'abstract_states': sc.n_states, 'merged': sc.n_merged, 'forks': sc.n_forks,
+                  'returns': {k: len(v) for k, v in sorted(kinds.items())}}
+        for kind, why in SKIP_BAD_KINDS.items():
+            hits = kinds.get(kind, [])
+            shortest = min(hits, key=lambda o: len(o.detail)) if hits else None
+            rep.check(not hits, rule, '%s%s|%s|%s' % (prefix, path, kind, cfg), body.where(),
+                      '%s never %s (%d abstract states, %d returns examined against /%s/)' % (path.split('::')[-1], why, sc.n_states, len(outs), shown),
+                      '%s %s: %s  [%d such paths]' % (path.split('::')[-1], why, (shortest.detail if shortest else '').replace('\t', '\\t').replace('\r', '\\r').replace('\n', '\\n'), len(hits)), detail=detail)
+        rep.check(bool(kinds.get('ok')), rule, '%s%s|reaches-ok|%s' % (prefix, path, cfg), body.where(),
+                  'the exploration reaches Ok returns', 'the exploration reaches no Ok return: vacuous')
+    return n
 SEARCH_NAMES = {'position', 'rposition', 'find', 'find_map', 'any', 'all', 'contains', 'windows', 'split', 'splitn', 'rsplit', 'iter_position', 'memchr', 'memrchr', 'memmem'}
 
 
@@ -856,6 +910,9 @@ def check(fx, rep, tier):
     rep.rule('R13.7', 'the name scanners accept exactly the grammar\'s lexical rules: abstract interpretation of the scanner MIR over an unknown input '
              '(byte-class knowledge per position, window-relative positions) in lock-step with the DFA of the rule; every Ok return is in the '
              'language and consumes exactly the name, no Err / shorter Ok is possible for an input whose name is legal, no assertion can fail')
+    rep.rule('R13.13', 'white space and comments are skipped exactly as the grammar says: abstract interpretation of ws / whitespace_only / comment_def as consumers '
+             '(same engine as R13.7, winnow\'s literal / take_while / multispace parsers modelled natively) in lock-step with the DFA of what each may consume; '
+             'every Ok return has consumed a word of the language and the longest one, no Err for an input that begins with one, no assertion can fail')
     rep.rule('R13.8', 'a line comment is confined to its line (rule R14.7 of C14): otherwise an empty `#` line swallows the following member, which then is missing from the tree')
     rep.rule('R13.5', 'name scanners can stop only right after a byte that passed an alphanumeric class test, or check the last byte before returning Ok')
     rep.rule('R13.1', 'every index / range slice / unwrap in idl::parse is discharged: dominating len / is_empty / starts_with guards, inductive cursors, frozen unwrap table; no str byte-slicing')
@@ -887,11 +944,13 @@ def check(fx, rep, tier):
         check_conservation(rep, crate, cfg)
         check_name_endings(rep, crate, cfg)
         nsc += check_scanners(rep, crate, cfg)
+        check_lexical_helpers(rep, crate, cfg)
         if cfg == 'full':
             import c14
             c14.check_comment_confined(rep, crate, 'R13.8')
         check_no_byte_search(rep, crate, cfg)
         nms += check_member_start_after_comments(rep, crate, cfg)
     rep.floor('R13.7', 21, 'scanner verdict instances (3 scanners x 7)')
+    rep.floor('R13.13', 18, 'lexical helper verdict instances (3 helpers x 6)')
     rep.floor('R13.10', 2, 'member-name scan sites')
     return META
